@@ -6,6 +6,8 @@ package bfs
 import (
 	"fmt"
 	"runtime"
+	"runtime/debug"
+	"strings"
 	"sync"
 	"time"
 )
@@ -71,6 +73,32 @@ type job[O any] struct {
 type jres struct {
 	out Outcome
 	err error
+	// crash: the code under test panicked while it served the last operation of the path (a real daemon has no recovery
+	// interceptor: it is gone). The path is reported and not expanded.
+	crash *Viol
+}
+
+// dirkFrame returns the innermost function of the code under test on a panic's stack ("" if the panic is the
+// harness's own).
+func dirkFrame(stack string) string {
+	lines := strings.Split(stack, "\n")
+	seenPanic := false
+	for _, l := range lines {
+		if strings.HasPrefix(l, "panic(") {
+			seenPanic = true
+			continue
+		}
+		if seenPanic && strings.HasPrefix(l, "github.com/attestantio/dirk/") && !strings.Contains(l, "/util/verifhook.") && !strings.Contains(l, "/util/verifsync.") {
+			if i := strings.LastIndex(l, "("); i > 0 {
+				l = l[:i]
+			}
+			return strings.TrimPrefix(l, "github.com/attestantio/dirk/")
+		}
+		if seenPanic && (strings.HasPrefix(l, "verif/") || strings.HasPrefix(l, "main.")) {
+			return ""
+		}
+	}
+	return ""
 }
 
 // Explore runs the search.
@@ -126,7 +154,8 @@ func Explore[O any](cfg Config[O]) (Result, error) {
 		timedOut := false
 		for wi := range workers {
 			wg.Add(1)
-			go func(w Worker[O]) {
+			go func(wi int) {
+				w := workers[wi]
 				defer wg.Done()
 				for {
 					mu.Lock()
@@ -146,14 +175,23 @@ func Explore[O any](cfg Config[O]) (Result, error) {
 						// with it: it becomes the error of this path.
 						defer func() {
 							if r := recover(); r != nil {
+								if fn := dirkFrame(string(debug.Stack())); fn != "" {
+									results[i] = jres{crash: &Viol{Key: "request-crashes-the-instance:" + fn, What: fmt.Sprintf("the last request of the path is not answered: the instance panics in %s (%v); a daemon that panics is gone, for every client", fn, r)}}
+									// The instance may hold locks it will never release: this worker gets a fresh one.
+									if nwk, err := cfg.NewWorker(); err == nil {
+										w = nwk
+										workers[wi] = nwk
+									}
+									return
+								}
 								results[i] = jres{err: fmt.Errorf("panic: %v", r)}
 							}
 						}()
 						o, err := w.Run(jobs[i].path)
-						results[i] = jres{o, err}
+						results[i] = jres{out: o, err: err}
 					}()
 				}
-			}(workers[wi])
+			}(wi)
 		}
 		wg.Wait()
 		if timedOut {
@@ -179,6 +217,13 @@ func Explore[O any](cfg Config[O]) (Result, error) {
 			}
 		}
 		for i, r := range results {
+			if r.crash != nil {
+				res.Transitions++
+				if cfg.OnViolation != nil {
+					cfg.OnViolation(jobs[i].path, *r.crash)
+				}
+				continue
+			}
 			// Determinism: the replayed prefix must give the observations recorded when it was first explored.
 			for k := range jobs[i].want {
 				if r.out.Obs[k] != jobs[i].want[k] {
